@@ -124,33 +124,46 @@ def phase_C13(tier, seed, st, stats):
                                     "of_which_confirmed_on_the_real_kernel": confirmed,
                                     "length_histogram_16B_buckets": {str(k): v for k, v in sorted(lens.items())},
                                     "placements": 6, "surroundings": 3, "feature_combinations": 4, "entry_points": 2}}
-    c2, v2 = arm64_count_phase()
+    c2, v2 = arm64_count_phase(tier)
     cov.update(c2)
     viol.extend(v2)
     return cov, viol
 
 
-def arm64_count_phase():
-    """the arm64 byte-count kernels cannot be executed here; tools/arm64sim.py interprets the text of the .s files
-    (read from the working tree) and compares Count / CountString with the definition over lengths x alignments x
-    contents.  A search, not a proof; instructions it does not know make it step aside (recorded, no verdict)."""
-    cov, viol = {"arm64_count_kernel_simulation": {}}, []
-    for f in ("count_go122_arm64.s", "count_arm64.s"):
+def arm64_count_phase(tier="quick"):
+    """the arm64 kernels cannot be executed here; tools/arm64sim.py interprets the text of the .s files (read from the
+    working tree) and compares both entry points of each kernel with its definition over lengths x all 32 alignments x
+    contents x needles x what surrounds the argument.  A search, not a proof; instructions it does not know make it
+    step aside (recorded, no verdict)."""
+    from concurrent.futures import ThreadPoolExecutor
+    cov, viol = {"arm64_kernel_simulation": {}}, []
+    files = ("count_go122_arm64.s", "count_arm64.s", "indexbyte_arm64.s", "index_non_ascii_arm64.s")
+
+    def one(f):
         path = os.path.join(vlib.REPO, "internal", "bytealg", f)
         if not os.path.exists(path):
-            cov["arm64_count_kernel_simulation"][f] = {"status": "file not found"}
+            return f, None, ""
+        cmd = [sys.executable, os.path.join(VERIF, "tools", "arm64sim.py"), path] + (["--quick"] if tier == "quick" else [])
+        rc, out, _ = run(cmd, timeout=1800)
+        return f, rc, out
+
+    with ThreadPoolExecutor(max_workers=4) as ex:
+        results = list(ex.map(one, files))
+    for f, rc, out in results:
+        if rc is None:
+            cov["arm64_kernel_simulation"][f] = {"status": "file not found"}
             continue
-        rc, out, _ = run([sys.executable, os.path.join(VERIF, "tools", "arm64sim.py"), path], timeout=600)
         last = out.strip().split("\n")[-1] if out.strip() else ""
         info = {"status": {0: "agrees with the definition", 1: "disagrees", 3: "not simulated"}.get(rc, "simulator failed (rc %s)" % rc),
                 "summary": last[:300]}
-        cov["arm64_count_kernel_simulation"][f] = info
+        cov["arm64_kernel_simulation"][f] = info
         if rc == 1:
             for l in out.split("\n"):
-                m = re.match(r"MISMATCH (\w+)\(s=([0-9a-f]*), c=(\d+)\) with the data at address = (\d+) mod 32: kernel (\d+), definition (\d+)", l)
+                m = re.match(r"MISMATCH (\w+)\(s=([0-9a-f]*), c=(\d+)\) with the data at address = (\d+) mod 32: kernel (.+?), definition (-?\d+) \(bytes around the argument: (\d+)\)", l)
                 if m:
                     viol.append({"kind": "kernel", "fn": "arm64 " + m.group(1),
-                                 "arm64_sim": {"file": f, "entry": m.group(1), "s": m.group(2), "c": int(m.group(3)), "align": int(m.group(4))},
+                                 "arm64_sim": {"file": f, "entry": m.group(1), "s": m.group(2), "c": int(m.group(3)), "align": int(m.group(4)),
+                                               "junk": int(m.group(7))},
                                  "detail": "internal/bytealg/%s interpreted by tools/arm64sim.py: %s(s, %d) with s = %d bytes %s... placed at an address = %d mod 32 "
                                            "returns %s, the definition gives %s (the arm64 kernel cannot be executed in this sandbox; the interpreter runs the text of the file)"
                                            % (f, m.group(1), int(m.group(3)), len(m.group(2)) // 2, m.group(2)[:24], int(m.group(4)), m.group(5), m.group(6))})
